@@ -7,6 +7,7 @@ import (
 	"go/types"
 	"math/big"
 	"os"
+	"reflect"
 	"regexp"
 	"strings"
 	"time"
@@ -143,6 +144,57 @@ func (e *Exec) zzCall(fn *ssa.Function, args []Value) Value {
 	case "Realise", "RealiseCRL", "RealiseOr", "RealiseCRLOr":
 		// identity under the symbolic executor (natively: DER round trip through the real parser)
 		return args[0]
+	case "JSONTags":
+		// the encoding/json view of a struct type, read from the struct tags of the current source: one entry
+		// "GoField|key|options|type" per field the codec would consider (embedded structs without a tag are
+		// flattened, unexported fields skipped)
+		iv, ok := args[0].(*IfaceV)
+		if !ok || iv.T == nil {
+			e.unsupported("zz.JSONTags of a nil interface")
+		}
+		t := iv.T
+		if p, ok := t.Underlying().(*types.Pointer); ok {
+			t = p.Elem()
+		}
+		st, ok := t.Underlying().(*types.Struct)
+		if !ok {
+			e.unsupported("zz.JSONTags of non-struct %s", t.String())
+		}
+		var out []string
+		var walk func(st *types.Struct)
+		walk = func(st *types.Struct) {
+			for i := 0; i < st.NumFields(); i++ {
+				f := st.Field(i)
+				tag := reflect.StructTag(st.Tag(i)).Get("json")
+				if f.Embedded() && tag == "" {
+					ft := f.Type()
+					if p, ok := ft.Underlying().(*types.Pointer); ok {
+						ft = p.Elem()
+					}
+					if es, ok := ft.Underlying().(*types.Struct); ok {
+						walk(es)
+						continue
+					}
+				}
+				if !f.Exported() {
+					continue
+				}
+				key, opts := tag, ""
+				if i := strings.Index(tag, ","); i >= 0 {
+					key, opts = tag[:i], tag[i+1:]
+				}
+				if key == "" {
+					key = f.Name()
+				}
+				out = append(out, f.Name()+"|"+key+"|"+opts+"|"+types.TypeString(f.Type(), func(p *types.Package) string { return p.Name() }))
+			}
+		}
+		walk(st)
+		return e.strSliceVal(out)
+	case "JSONEncoded":
+		vals := e.ghost["json.encoded"]
+		arr := &ArrayV{E: append([]Value{}, vals...)}
+		return &SliceV{O: e.newObj(arr, "jsonencoded"), Len: cbv(uint64(len(vals)), 64), Cap: len(vals)}
 	case "EnvLog":
 		vals := e.ghost["env"]
 		arr := &ArrayV{E: append([]Value{}, vals...)}
